@@ -73,6 +73,36 @@ Theorem C05_sync_legacy_refuted :
     /\ a_pc s = A_Done.
 Proof. exact sync_legacy_refuted. Qed.
 
+(** Across mode transitions (OFF -> PKT, OFF -> ALL, PKT -> ALL, ALL -> PKT, PKT -> OFF, ALL -> OFF,
+    any sequence, any interleaving of the I/O thread's four mode loads with the application's
+    stores and clears).  For EVERY script and schedule, everything the I/O thread took from the
+    events queue is, with its multiplicity, in exactly one place: processed normally, retrieved
+    by wait_packet, waiting in the synchronous queue, discarded by the queue clear of an
+    enable_synchronous call (by design), dropped by add_sync_event, or in the thread's hands. *)
+Theorem C05_sync_transitions_account :
+  forall (cfg : config) (script : list op) (sp : list chunk) (l0 : bool) (sched : list action) (x : msg),
+    let s := run cfg sched (init cfg script sp l0) in
+    cnt x (taken s) = cnt x (delivered s ++ got s ++ sync_q s ++ cleared s ++ dropped s ++ hand_c s).
+Proof. exact sync_transitions_account. Qed.
+
+(** ... and as long as the application never switches synchronous mode OFF, add_sync_event drops
+    nothing: every packet is processed normally (hence dispatched, theorem 1), retrievable, or
+    explicitly discarded by a clear; none is silently lost. *)
+Theorem C05_sync_enable_never_drops :
+  forall cfg script sp l0 sched,
+    Forall enable_only script ->
+    dropped (run cfg sched (init cfg script sp l0)) = [].
+Proof. exact sync_enable_never_drops. Qed.
+
+(** Switching the mode OFF discards what is queued, including the packet being saved. *)
+Theorem C05_sync_disable_may_drop :
+  let cfg := mkConfig true false 3 false false false false in
+  let s := run cfg ([Emit] ++ repeat (Step TR) 6 ++ [Step TA; Step TA] ++ repeat (Step TC) 4
+                    ++ [Step TA; Step TA] ++ [Step TC])
+               (init cfg [OSync 1; OSync 0] [[Some (mkMsg 0 1 true)]] false) in
+  dropped s = [mkMsg 0 1 true] /\ sync_mode s = 0.
+Proof. exact sync_disable_may_drop. Qed.
+
 (** 3. Bridge (both directions, messages of every kind: ordinary packets, packet-type messages
     without scapy counterpart, non-packet messages).  FULL STATEMENT (refuted by the faithful
     model of the code that exists, KNOWN-FINDING bridge-created-under-traffic): once
@@ -130,6 +160,17 @@ Theorem C05_bridge_quiet_link_quiescent :
     bquiet s = true ->
     d_peer (b_in s) = hi ++ msgs_of (concat spi) /\ d_peer (b_out s) = ho ++ msgs_of (concat spo).
 Proof. exact bridge_quiet_link_quiescent. Qed.
+
+(** [fi], [fo]: message filters left on the devices by earlier send_command / send_message calls
+    are reset by Bridge.__init__ (B1 / B2), so on a quiet link EVERY kind of message emitted
+    after the creation is relayed, including those a stale filter would have kept.  Under
+    traffic a stale filter exposes the two unsynchronised filter loads of Device.put_message
+    (KNOWN-FINDING filter-reset-races-put-message): *)
+Theorem C05_bridge_stale_filter_reader_dies :
+  exists sched,
+    d_rpc (b_in (brun (mkBC false false) sched
+                   (binit2 (sinit true (Some 3) [] [] [[Some p1]]) (sinit false None [] [] [])))) = BR_Dead.
+Proof. exact bridge_stale_filter_reader_dies. Qed.
 
 (** Connector.__init__ as found: the device was given the half-built connector; the reader
     thread dies on it. *)
